@@ -118,8 +118,9 @@ class Interp:
                 env[o.name] = outs[i]
         res = []
         names = [o.name for o in graph.outputs]
-        if top and len(set(names)) != len(names):
-            raise Malformed("duplicate graph outputs")
+        if len(set(names)) != len(names) and not fn_attrs_scope(fn_attrs):
+            # also for subgraphs: runtimes are free to (and onnxruntime does) mis-handle duplicate outputs
+            raise Malformed(f"duplicate graph outputs {names}")
         for o in graph.outputs:
             if o.name not in env:
                 raise Malformed(f"graph output {o.name!r} is not produced")
